@@ -221,6 +221,14 @@ def run_case(concepts, case, spec):
                                     for i in range(min(sh.n, 6))}})
     with core.monitor_code():
         judge_labels(lat, cap, 'quiescent')
+    if hash(gen.table_key(case)) % 4 == 0:      # a second lattice built on the very same context object
+        lat2 = call(concepts.lattices.Lattice, ctx)
+        if lat2 is not RAISED:
+            with core.monitor_code():
+                common.drop_views()
+                judge_labels(common.tie(lat2, ctx), cap, 'second_lattice')
+                common.drop_views()
+            COL.count('second_lattice_on_same_context')
     members = list(lat)
     for c in rng.sample(members, min(len(members), 12)):
         call(str, c)
